@@ -104,3 +104,173 @@ def dense_choice_axes_contract(k, skel):
     sim = k.call_fn(k.fn("lcm.simulate.determine_discrete_dense_choice_axes"), im.variable_info)
     want_sim = tuple(range(1, len(lay.DC) + 1)) or None
     k.ensures("simulation-positions-after-the-agent-axis", (not isinstance(sim, Raised)) and sim == want_sim)
+
+
+# ----------------------------------------------------------------------------- C20: extreme-value aggregation
+class LSEInst:
+    def __init__(self, trailing):
+        self.trailing = trailing
+        self.label = f"trailing_rank={trailing}"
+
+
+@contract("lcm.discrete_problem._segment_logsumexp", family=lambda tier: [LSEInst(t) for t in ((0, 1) if tier == "quick" else (0, 1, 2))], props=("C20",))
+def segment_logsumexp_contract(k, inst):
+    """(statement of C20, segment layout) for sorted ids with non-empty segments: (stable) every argument of exp
+    is <= 0 and one per segment is 0; the result is log of the sum over the segment of exp(a) and lies between the
+    segment maximum and the maximum plus log(number of rows in the segment).
+    Finite sums are uninterpreted; the sum lemmas used (homogeneity, bounds from summand bounds) and the exp/log
+    facts are Mathlib facts instantiated on the occurring terms (assumed)."""
+    n = k.int("n", ge=1, le=4, size=True)
+    num = k.int("num", ge=1, le=3, size=True)
+    tr = [k.int(f"t{q}", ge=1, le=2, size=True) for q in range(inst.trailing)]
+    a = k.array("a", [n, *tr], "float", values=[-2.0, -1.0, 0.0, 0.5, 1.0, 3.0])
+    ids = k.array("ids", [n], "int", gen=lambda rng, shp: sorted_ids(rng, shp[0], int(num)))
+    segment_pre(k, n, num, ids)
+    info = {"segment_ids": ids, "num_segments": num if k.mode != "native" else int(num)}
+    out = k.call(a, info)
+    if isinstance(out, Raised):
+        k.fail("no-exception", repr(out))
+        return
+    if k.mode == "native":
+        import numpy as np
+
+        aa, ii = np.asarray(a, dtype=float), np.asarray(ids)
+        for r in range(int(num)):
+            rows = aa[ii == r]
+            want = np.log(np.exp(rows).sum(axis=0))
+            got = np.asarray(out)[r]
+            k.ensures("log-of-sum-of-exp", bool(np.allclose(got, want, rtol=1e-4, atol=1e-5)))
+            k.ensures("between-max-and-max-plus-log-count", bool(np.all(got >= rows.max(axis=0) - 1e-5) and np.all(got <= rows.max(axis=0) + np.log(len(rows)) + 1e-5)))
+        return
+    import z3
+
+    from pyvc.ctx import cur
+    from pyvc.stubs import jnp_impl as J
+    from pyvc.stubs.jax_impl import _EXP, _LOG
+    from pyvc.values import T
+
+    ctx = cur()
+    exp_args = ctx.memo.get("exp-array-args", [])
+    sums = ctx.memo.get("segsums", [])
+    k.ensures("one-elementwise-exp-and-one-segment-sum", len(exp_args) == 1 and len(sums) == 1)
+    if len(exp_args) != 1 or len(sums) != 1:
+        return
+    arg, ss = exp_args[0], sums[0]
+    # specification-side maximum per segment (its witness row is ghost state of the specification)
+    m = J.segment_max(a, ids, num, indices_are_sorted=True)
+    for idx in k.indices([n, *tr], name="row"):
+        j, t = idx[0], idx[1:]
+        k.ensures("stable:every-exponent-argument-is-nonpositive", T(arg.get(tuple(x.e for x in idx)) <= 0))
+    for st in k.indices([num, *tr], name="seg"):
+        r, t = st[0], st[1:]
+        te = tuple(x.e for x in t)
+        w = m.witness(r.e, *te)  # a row of segment r attaining the maximum
+        k.ensures("stable:one-exponent-argument-per-segment-is-zero", T(z3.And(w >= 0, w < n.e, ids.get((w,)) == r.e, arg.get((w, *te)) == 0)))
+        mr = m.get((r.e, *te))
+        SS = ss.S(r.e, *te)
+        # --- finite-sum lemma instances (Mathlib: Finset.single_le_sum, Finset.sum_le_card_nsmul), premises proved
+        jj = z3.Int("lemma.j")
+        summand = lambda jx: _EXP(arg.get((jx, *te)))
+        in_seg = lambda jx: z3.And(jx >= 0, jx < n.e, ids.get((jx,)) == r.e)
+        ctx.assume(z3.ForAll([jj], summand(jj) > 0), tag="math:Real.exp_pos (all rows)")
+        ctx.assume(z3.ForAll([jj], z3.Implies(arg.get((jj, *te)) <= 0, summand(jj) <= 1)), tag="math:Real.exp_le_one_of_nonpos (all rows)")
+        ctx.assume(_EXP(z3.RealVal(0)) == 1, tag="math:Real.exp_zero")
+        k.ensures("lemma-premise:summands-in-(0,1]", T(z3.ForAll([jj], z3.Implies(in_seg(jj), z3.And(summand(jj) > 0, summand(jj) <= 1)))))
+        count = z3.Int(ctx.fresh("rows-in-segment"))
+        ctx.assume(z3.And(count >= 1, count <= n.e), tag="spec")
+        ctx.assume(z3.And(SS >= summand(w), SS <= z3.ToReal(count)), tag="math:Finset.single_le_sum, Finset.sum_le_card_nsmul")
+        ctx.trusted.add("finite-sum lemmas (assumed, premises discharged): a sum of non-negative terms bounds each term; a sum of terms <= 1 is <= the number of terms")
+        # log facts for the occurring terms
+        ctx.assume(z3.And(_LOG(z3.RealVal(1)) == 0, z3.Implies(z3.And(SS >= 1), _LOG(SS) >= 0), z3.Implies(z3.And(SS > 0, SS <= z3.ToReal(count)), _LOG(SS) <= _LOG(z3.ToReal(count)))), tag="math:Real.log_le_log")
+        res = out.get((r.e, *te))
+        k.ensures("result-is-max-plus-log-of-the-shifted-sum", T(res == mr + _LOG(SS)))
+        k.ensures("between-max-and-max-plus-log-count", T(z3.And(res >= mr, res <= mr + _LOG(z3.ToReal(count)))))
+        # --- identity: log sum exp(a) (homogeneity of finite sums: sum_j c x_j = c sum_j x_j, Finset.mul_sum)
+        SSspec = z3.Real(ctx.fresh("sum-of-exp-a-over-segment"))
+        c = _EXP(-mr)
+        ctx.assume(z3.ForAll([jj], _EXP(a.get((jj, *te)) - mr) == _EXP(a.get((jj, *te))) * c), tag="math:Real.exp_sub (all rows)")
+        k.ensures("lemma-premise:shifted-summand-is-c-times-summand", T(z3.ForAll([jj], z3.Implies(in_seg(jj), summand(jj) == _EXP(a.get((jj, *te))) * c))))
+        ctx.assume(SS == SSspec * c, tag="math:Finset.mul_sum (premise discharged)")
+        ctx.assume(z3.And(c > 0, _LOG(c) == -mr, z3.Implies(z3.And(SSspec > 0, c > 0), _LOG(SSspec * c) == _LOG(SSspec) + _LOG(c))), tag="math:Real.exp_pos, Real.log_exp, Real.log_mul")
+        k.ensures("log-of-sum-of-exp", T(z3.Implies(SSspec > 0, res == _LOG(SSspec))))
+
+
+class EmaxInst:
+    def __init__(self, rank, axes, seg):
+        self.rank, self.axes, self.seg = rank, axes, seg
+        self.label = f"rank={rank},choice_axes={axes},segments={int(seg)}"
+
+
+def emax_family(tier):
+    out = []
+    for r in (1, 2) if tier == "quick" else (1, 2, 3):
+        for seg in (False, True):
+            first = 1 if seg else 0
+            cands = [None] + [c for m in range(1, r - first + 1) for c in itertools.combinations(range(first, r), m)]
+            for ca in cands:
+                if ca is None and not seg:
+                    continue
+                out.append(EmaxInst(r, ca, seg))
+    return out
+
+
+@contract("lcm.discrete_problem._calculate_emax_extreme_value_shocks", family=emax_family, props=("C20",))
+def emax_contract(k, inst):
+    """(statement of C20, axis layout and composition) the aggregation is scale * logsumexp(values / scale) over
+    exactly the dense choice axes, followed -- if there are segments -- by scale * segment_logsumexp(x / scale) over
+    the leading axis, with scale read from params['additive_utility_shock']['scale']."""
+    r = inst.rank
+    ns = [k.int(f"n{d}", ge=1, le=3, size=True) for d in range(r)]
+    v = k.array("values", ns, "float", values=[-1.0, 0.0, 0.5, 2.0])
+    s = k.real("scale") if k.mode != "native" else abs(k.real("scale")) + 0.5
+    k.requires(s > 0)
+    params = {"additive_utility_shock": {"scale": s}}
+    segs = None
+    if inst.seg:
+        num = k.int("num", ge=1, le=2, size=True)
+        ids = k.array("ids", [ns[0]], "int", gen=lambda rng, shp: sorted_ids(rng, shp[0], int(num)))
+        segment_pre(k, ns[0], num, ids)
+        segs = {"segment_ids": ids, "num_segments": num if k.mode != "native" else int(num)}
+    out = k.call(v, inst.axes, segs, params)
+    if isinstance(out, Raised):
+        k.fail("no-exception", repr(out))
+        return
+    if k.mode == "native":
+        import numpy as np
+
+        x = np.asarray(v, dtype=float)
+        if inst.axes is not None:
+            x = s * np.log(np.exp(x / s).sum(axis=tuple(inst.axes)))
+        if inst.seg:
+            ii = np.asarray(ids)
+            x = np.stack([s * np.log(np.exp(x[ii == q] / s).sum(axis=0)) for q in range(int(num))])
+        k.ensures("scale-times-log-sum-exp-of-values-over-scale", bool(np.allclose(np.asarray(out), x, rtol=1e-4, atol=1e-5)))
+        return
+    import z3
+
+    from pyvc.ctx import cur
+    from pyvc.values import T
+
+    ctx = cur()
+    calls = ctx.memo.get("lse-calls", [])
+    want_calls = 1 if inst.axes is not None else 0
+    k.ensures("one-axis-log-sum-exp-iff-dense-choice-axes", len(calls) == want_calls)
+    if len(calls) != want_calls:
+        return
+    cur_arr = v
+    if inst.axes is not None:
+        c = calls[0]
+        k.ensures("reduces-exactly-the-dense-choice-axes", tuple(c["axes"]) == tuple(inst.axes))
+        for idx in k.indices(ns, name="e"):
+            k.ensures("log-sum-exp-of-values-over-scale", T(c["input"].get(tuple(x.e for x in idx)) == v.get(tuple(x.e for x in idx)) / s.e))
+        keep = [d for d in range(r) if d not in inst.axes]
+        if not inst.seg:
+            oshape = [ns[d] for d in keep]
+            for idx in k.indices(oshape, name="o"):
+                got = out.get(tuple(x.e for x in idx)) if hasattr(out, "get") else out.e
+                k.ensures("result-is-scale-times-log-sum-exp", T(got == s.e * c["out"].get(tuple(x.e for x in idx))))
+            return
+        cur_arr = c["out"]
+    sums = ctx.memo.get("segsums", [])
+    exps = ctx.memo.get("exp-array-args", [])
+    k.ensures("segment-form-used-for-the-leading-axis", len(sums) == 1 and len(exps) == 1)
